@@ -1,8 +1,36 @@
+import os, sys
+sys.path.insert(0, os.path.dirname(os.path.abspath(__file__)))
+import gen
 UNIT = dict(
     name='fmt',
     roots=['fn:frgv::frgv_force'],
-    sources=['harness.c'],
-    assumptions=[],
+    first_includes=['va.h'],
+    sources=[],          # harness.c is included by the generated case table (it needs the table first)
+    assumptions=['oracle for ISO C: the host C library snprintf, called when the case tables are generated; %p is compared with the documented 0x<hex> form',
+                 'variadic arguments: finite list model (va.h)', 'default locale (no grouping)'],
 )
+_cache = {}
+def _tables(tier):
+    if tier not in _cache:
+        _cache[tier] = gen.emit_c(tier)
+    return _cache[tier]
+def generate(bdir, tier):
+    txt, _ = _tables(tier)
+    p = os.path.join(bdir, 'c19_cases.h')
+    open(p, 'w').write(txt + '#include "%s"\n' % os.path.join(os.path.dirname(os.path.abspath(__file__)), 'harness.c'))
+    return [p]
 def obligations(tier):
-    return []
+    _, batches = _tables(tier)
+    obs = []
+    for L in (range(0, 36) if tier == 'quick' else range(0, 70)):
+        obs.append(dict(id='c19.logger.len%d' % L, entry='h_c19_logger', cls='B', serves=['C19'], unwind=max(L + 8, 24), function='sbl_item_append_1', timeout=600,
+                        flags=['--object-bits', '12'], defines=['C19_BATCH=0', 'LOG_LEN=%d' % L], bound='a message of %d arbitrary non-NUL characters followed by a 5-digit integer, buffer size 16' % L))
+    for k, fam, n, sample in batches:
+        if fam == 'fmt':
+            obs.append(dict(id='c19.fmt.b%d' % k, entry='h_c19_fmt', cls='B', serves=['C19'], unwind=202, function='frg_detail__fmt_impl_int_R_const_char_PR__format_object__frgv_vsink', timeout=900,
+                            flags=['--object-bits', '12'], defines=['C19_BATCH=%d' % k], bound='%d fmt() formats (first: %s) with arguments (int, "ab")' % (n, sample)))
+            continue
+        obs.append(dict(id='c19.%s.b%d' % (fam, k), entry='h_c19_printf', cls='B', serves=['C19'], unwind=202, function='frg_printf_format__frgv_vagent', timeout=900,
+                        flags=['--object-bits', '12'], defines=['C19_BATCH=%d' % k],
+                        bound='%d directives of family %s (first: %s) with concrete boundary arguments' % (n, fam, sample)))
+    return obs
